@@ -262,6 +262,19 @@ def _global_step(v):
         reset_globals()
 
 
+def _global_step_then_units_switched(v):
+    """The number keeps the meaning it had when it was passed: the session's units change before the step is read / used."""
+    was = PreferredUnits.distance
+    try:
+        set_global_max_calc_step_size(v)
+        PreferredUnits.distance = Unit.Meter if was is not Unit.Meter else Unit.Foot
+        calc = Calculator()
+        return (get_global_max_calc_step_size(), calc._calc._config.max_calc_step_size_feet)  # pylint: disable=protected-access
+    finally:
+        PreferredUnits.distance = was
+        reset_globals()
+
+
 # name -> (slot or tuple of acceptable slots, callable(arg))
 SITES = {
     "Atmo.altitude": ("distance", lambda v: Atmo(altitude=v)),
@@ -307,6 +320,7 @@ SITES = {
     "HitResult.danger_space.target_height": (("distance", "target_height"), lambda v: _hit().danger_space(Distance.Yard(200), v)),
     "HitResult.danger_space.look_angle": ("angular", lambda v: _hit().danger_space(Distance.Yard(200), Distance.Inch(10), v)),
     "set_global_max_calc_step_size": ("distance", _global_step),
+    "set_global_max_calc_step_size.then-units-switched": ("distance", _global_step_then_units_switched),
 }
 
 
